@@ -58,8 +58,13 @@ def port_twin_worker(arg):
     import pydsdl
     from .. import dsdlio
     api, allow, where, text = arg
-    base = {"vnd/7000.T.1.0.dsdl": "uint8 a\n@sealed\n", "vnd/U.1.0.dsdl": "vnd.T.1.0 t\n@sealed\n", "lk/oth/Fine.1.0.dsdl": "@sealed\n"}
-    outsider = {"lookup": "lk/oth/7000.Other.1.0.dsdl", "lookup-same-ns": "lk2/vnd/7000.Other.1.0.dsdl", "own-root": "vnd/7000.Sib.1.0.dsdl"}[where]
+    base = {"vnd/7000.T.1.0.dsdl": "uint8 a\n@sealed\n", "vnd/U.1.0.dsdl": "vnd.T.1.0 t\noth.Strasse.1.0 s\n@sealed\n", "lk/oth/Fine.1.0.dsdl": "@sealed\n",
+            "lk/oth/Strasse.1.0.dsdl": "uint8 x\n@sealed\n"}
+    # "casefold-*": a file that nothing can refer to (identifiers are ASCII) whose name equals a referenced name only after full
+    # Unicode case folding (sharp s, long s) / after upper-casing (dotless i)
+    outsider = {"lookup": "lk/oth/7000.Other.1.0.dsdl", "lookup-same-ns": "lk2/vnd/7000.Other.1.0.dsdl", "own-root": "vnd/7000.Sib.1.0.dsdl",
+                "casefold-sharp-s": "lk/oth/Stra\u00dfe.1.0.dsdl", "casefold-long-s": "lk/oth/Stra\u017fse.1.0.dsdl",
+                "upper-dotless-i": "lk/oth/F\u0131ne.1.0.dsdl"}[where]
     if where == "own-root" and api == "namespace":
         return None          # there it IS part of the result
     obs = []
@@ -107,7 +112,7 @@ def run(ctx):
         ctx.exhaustive = False
     from . import c02
     from .. import core as _core
-    twins = [(a, al, w, t) for a in ("namespace", "files") for al in (False, True) for w in ("lookup", "lookup-same-ns", "own-root")
+    twins = [(a, al, w, t) for a in ("namespace", "files") for al in (False, True) for w in ("lookup", "lookup-same-ns", "own-root", "casefold-sharp-s", "casefold-long-s", "upper-dotless-i")
              for t in ("@@ garbage ]\n", "", "uint8 a\n@sealed\n", "@print 1\n@assert false\n@sealed\n", "@sealed\n---\n@sealed\n")]
     c02.consume(ctx, _core.pmap(port_twin_worker, twins, chunksize=2), "port-twins")
     repo_suite_reader_trace(ctx)
